@@ -8,12 +8,14 @@ import (
 	"go/token"
 	"math/rand"
 	"os"
+	"sort"
 	"strings"
 	"sync"
 
 	"github.com/dave/dst"
 	"github.com/dave/dst/decorator"
 	"github.com/dave/dst/decorator/resolver"
+	"github.com/dave/dst/decorator/resolver/goast"
 	"github.com/dave/dst/decorator/resolver/gobuild"
 	"github.com/dave/dst/decorator/resolver/guess"
 	"go/build"
@@ -33,6 +35,10 @@ type c16Input struct {
 	Srcs   []string `json:"srcs,omitempty"`
 	Config icConfig `json:"config,omitempty"`
 	Rounds int      `json:"rounds"`
+	// own-resolvers: the explicit names the other callers store in resolvers of their own (caller -> path -> name)
+	// and the sources of those callers (Srcs are the sources of the callers that store nothing)
+	Names     []map[string]string `json:"names,omitempty"`
+	NamedSrcs []string            `json:"named_srcs,omitempty"`
 }
 
 func c16Once(src string, ident resolver.DecoratorResolver, pkg resolver.RestorerResolver) (string, error) {
@@ -86,6 +92,8 @@ func c16Check(in c16Input) (key, what string) {
 				}
 			}
 		}
+	case "own-resolvers":
+		return c16OwnResolvers(in)
 	case "gobuild-default-context":
 		before := build.Default
 		for _, dir := range []string{"/work/one", "/work/two"} {
@@ -198,6 +206,190 @@ func c16Check(in c16Input) (key, what string) {
 	return "", ""
 }
 
+// c16OwnResolvers: every caller has a package-name resolver of its own, obtained from guess.New(); some
+// callers store explicit names in theirs (r[path] = name, the type is a map) before using it. What one
+// caller stores must not reach another caller's guess.New(), nor the default of a goast.New(): every
+// result equals the result of the same call made alone -- first one caller after the other, then all
+// of them at the same time (each goroutine builds and fills its resolver itself).
+func c16OwnResolvers(in c16Input) (key, what string) {
+	lastElem := func(p string) string { return p[strings.LastIndex(p, "/")+1:] }
+	var paths []string
+	seenPath := map[string]bool{}
+	for _, m := range in.Names {
+		for p := range m {
+			if !seenPath[p] {
+				seenPath[p] = true
+				paths = append(paths, p)
+			}
+		}
+	}
+	sort.Strings(paths)
+	// a resolver nobody stored anything in guesses the last element of the path
+	fresh := func(when string) (string, string) {
+		r := guess.New()
+		for _, p := range paths {
+			if n, err := r.ResolvePackage(p); err != nil || n != lastElem(p) {
+				return "c16-own-resolver", fmt.Sprintf("%s: a resolver fresh from guess.New() resolves %q to %q (%v); nothing was stored in it, the name is the last element of the path: %q", when, p, n, err, lastElem(p))
+			}
+		}
+		return "", ""
+	}
+	once := func(src string, ident resolver.DecoratorResolver, pkg resolver.RestorerResolver) string {
+		out, err := c16Once(src, ident, pkg)
+		if err != nil {
+			return "error: " + err.Error()
+		}
+		return out
+	}
+	if k, w := fresh("before any caller stored a name"); k != "" {
+		return k, w
+	}
+	// the calls made alone: the callers that store nothing, through the default of goast.New() and through
+	// an explicit fresh resolver ...
+	wantDefault := make([]string, len(in.Srcs))
+	wantFresh := make([]string, len(in.Srcs))
+	for i, s := range in.Srcs {
+		wantDefault[i] = once(s, goast.New(), guess.New())
+		wantFresh[i] = once(s, goast.WithResolver(guess.New()), guess.New())
+	}
+	// ... and the callers with explicit names: the reference gets the same names through WithMap (a map of its own)
+	wantNamed := make([]string, len(in.NamedSrcs))
+	for i, s := range in.NamedSrcs {
+		m := map[string]string{}
+		for p, n := range in.Names[i] {
+			m[p] = n
+		}
+		wantNamed[i] = once(s, goast.WithResolver(guess.WithMap(m)), guess.WithMap(m))
+	}
+	// one after the other
+	for i, s := range in.NamedSrcs {
+		mine := guess.New()
+		for p, n := range in.Names[i] {
+			mine[p] = n
+		}
+		if out := once(s, goast.WithResolver(mine), mine); out != wantNamed[i] {
+			return "c16-own-resolver", fmt.Sprintf("caller %d with explicit names %v in its own guess.New(): the result differs from the same call with the names given through guess.WithMap:\n%s", i, in.Names[i], firstDiff(wantNamed[i], out))
+		}
+		if k, w := fresh(fmt.Sprintf("after caller %d stored %v in a resolver of its own", i, in.Names[i])); k != "" {
+			return k, w
+		}
+		for j, s := range in.Srcs {
+			if out := once(s, goast.New(), guess.New()); out != wantDefault[j] {
+				return "c16-own-resolver", fmt.Sprintf("file %d through goast.New() and a fresh guess.New(), after caller %d stored %v in a resolver of its own, differs from the same call made alone:\n%s", j, i, in.Names[i], firstDiff(wantDefault[j], out))
+			}
+			if out := once(s, goast.WithResolver(guess.New()), guess.New()); out != wantFresh[j] {
+				return "c16-own-resolver", fmt.Sprintf("file %d through a fresh guess.New(), after caller %d stored %v in a resolver of its own, differs from the same call made alone:\n%s", j, i, in.Names[i], firstDiff(wantFresh[j], out))
+			}
+		}
+	}
+	// all at the same time
+	for round := 0; round < in.Rounds; round++ {
+		gotDefault := make([]string, len(in.Srcs))
+		gotFresh := make([]string, len(in.Srcs))
+		gotNamed := make([]string, len(in.NamedSrcs))
+		var wg sync.WaitGroup
+		start := make(chan struct{})
+		for i := range in.NamedSrcs {
+			wg.Add(1)
+			go func(i int) {
+				defer wg.Done()
+				<-start
+				mine := guess.New()
+				for p, n := range in.Names[i] {
+					mine[p] = n
+				}
+				gotNamed[i] = once(in.NamedSrcs[i], goast.WithResolver(mine), mine)
+			}(i)
+		}
+		for j := range in.Srcs {
+			wg.Add(2)
+			go func(j int) {
+				defer wg.Done()
+				<-start
+				gotDefault[j] = once(in.Srcs[j], goast.New(), guess.New())
+			}(j)
+			go func(j int) {
+				defer wg.Done()
+				<-start
+				gotFresh[j] = once(in.Srcs[j], goast.WithResolver(guess.New()), guess.New())
+			}(j)
+		}
+		close(start)
+		wg.Wait()
+		for i := range gotNamed {
+			if gotNamed[i] != wantNamed[i] {
+				return "c16-own-resolver", fmt.Sprintf("round %d, caller %d with explicit names in its own resolver, all callers at the same time: the result differs from the same call made alone:\n%s", round, i, firstDiff(wantNamed[i], gotNamed[i]))
+			}
+		}
+		for j := range in.Srcs {
+			if gotDefault[j] != wantDefault[j] {
+				return "c16-own-resolver", fmt.Sprintf("round %d, file %d through goast.New(), all callers at the same time: the result differs from the same call made alone:\n%s", round, j, firstDiff(wantDefault[j], gotDefault[j]))
+			}
+			if gotFresh[j] != wantFresh[j] {
+				return "c16-own-resolver", fmt.Sprintf("round %d, file %d through a fresh guess.New(), all callers at the same time: the result differs from the same call made alone:\n%s", round, j, firstDiff(wantFresh[j], gotFresh[j]))
+			}
+		}
+	}
+	return "", ""
+}
+
+// genOwnResolvers: sources over a few import paths for callers that rely on guessed names (the last
+// element of the path), and callers that know better: each of those has explicit names for some of the
+// paths (the package clause there reads differently) and a source that uses those names
+func genOwnResolvers(r *rand.Rand) c16Input {
+	paths := []string{"root/lib", "root/other/util", "example.com/x/conf", "example.com/x/yaml", "gopkg.in/check.v1"}
+	alt := [][]string{{"lb", "golib"}, {"ut", "xutil"}, {"cfg", "config"}, {"yml", "yaml2"}, {"check", "chk"}}
+	last := func(p string) string { return p[strings.LastIndex(p, "/")+1:] }
+	file := func(pkg string, name func(k int) string, use []int) string {
+		var b strings.Builder
+		fmt.Fprintf(&b, "package %s\n\nimport (\n", pkg)
+		for _, k := range use {
+			fmt.Fprintf(&b, "\t%q\n", paths[k])
+		}
+		b.WriteString(")\n\n")
+		for j, k := range use {
+			fmt.Fprintf(&b, "var v%d = %s.F%d(%s.K)\n\n", j, name(k), j, name(k))
+		}
+		b.WriteString("func local() {}\n")
+		return b.String()
+	}
+	pick := func() []int {
+		var use []int
+		for _, k := range r.Perm(4)[:1+r.Intn(3)] { // the first four paths: their last element is an identifier
+			use = append(use, k)
+		}
+		sort.Ints(use)
+		return use
+	}
+	in := c16Input{Mode: "own-resolvers", Rounds: 3}
+	for i := 0; i < 2+r.Intn(3); i++ {
+		in.Srcs = append(in.Srcs, file(fmt.Sprintf("p%d", i), func(k int) string { return last(paths[k]) }, pick()))
+	}
+	for i := 0; i < 2+r.Intn(3); i++ {
+		names := map[string]string{}
+		use := pick()
+		if r.Intn(2) == 0 {
+			use = append(use, 4) // the last element of this path is no identifier: only a caller with an explicit name can use it
+		}
+		for _, k := range use {
+			if k == 4 || r.Intn(3) > 0 {
+				names[paths[k]] = alt[k][r.Intn(2)]
+			}
+		}
+		if len(names) == 0 {
+			names[paths[use[0]]] = alt[use[0]][0]
+		}
+		in.Names = append(in.Names, names)
+		in.NamedSrcs = append(in.NamedSrcs, file(fmt.Sprintf("q%d", i), func(k int) string {
+			if n, ok := names[paths[k]]; ok {
+				return n
+			}
+			return last(paths[k])
+		}, use))
+	}
+	return in
+}
+
 // genSharedViews: 3-5 small gofmt-canonical files over three import paths; every file picks, per
 // path, the plain import, one of two aliases, a blank import or nothing, and uses what it imports
 func genSharedViews(r *rand.Rand) []string {
@@ -253,7 +445,7 @@ func genSharedViews(r *rand.Rand) []string {
 }
 
 func c16Prop(c *Ctx) {
-	c.Res.Rule = "concurrent: groups of 8 distinct sources with imports (hand corpus + $GOROOT/src sample) decorated and restored by 8 goroutines sharing one zero-value goast resolver and one guess resolver, several rounds, compared with sequential results, under the race detector; repeat: collision-heavy import configurations restored 25 times each; non-trivial = distinct input"
+	c.Res.Rule = "own-resolvers: callers that store explicit names in their own guess.New() next to callers that rely on fresh guess.New() / the default of goast.New(), one after the other and all at once, each result compared with the same call made alone; concurrent: groups of 8 distinct sources with imports (hand corpus + $GOROOT/src sample) decorated and restored by 8 goroutines sharing one zero-value goast resolver and one guess resolver, several rounds, compared with sequential results, under the race detector; repeat: collision-heavy import configurations restored 25 times each; non-trivial = distinct input"
 	var pool []string
 	pool = append(pool, c08Sources...)
 	files := gorootFiles(12000)
@@ -325,6 +517,19 @@ func c16Prop(c *Ctx) {
 			c.Res.fail(key, what, in)
 		}
 	}
+	// resolvers of one's own: names stored in one caller's guess.New() stay there (last: a library that
+	// fails this keeps what was stored for the rest of the process)
+	defer func() {
+		for g := 0; g < c.N(10); g++ {
+			in := genOwnResolvers(c.Rng)
+			c.Res.Evaluations++
+			c.Res.seen(strings.Join(in.Srcs, "|") + strings.Join(in.NamedSrcs, "|"))
+			c.Res.hist("c16", "own-resolvers")
+			if key, what := c16Check(in); key != "" {
+				c.Res.fail(key, what, in)
+			}
+		}
+	}()
 	for i := 0; i < c.N(120); i++ {
 		cfg := genImportConfig(c.Rng, i%3 == 0, false)
 		if i%3 == 0 {
